@@ -128,8 +128,11 @@ def generate(run_seed, tier):
             ops.append(['clear'])
         elif r < 0.45:
             ops.append(['get', o.choice(mols if o.random() < 0.85 else allm)])
-        elif r < 0.60:
+        elif r < 0.57:
             ops.append(['probe', o.choice(mols), o.random(), o.random()])
+        elif r < 0.60:
+            # exactly on a node of the table
+            ops.append(['probe_node', o.choice(mols), o.random(), o.random()])
         elif r < 0.64:
             ops.append(['add_mem', o.choice(allm),
                         o.choice([None, 'linear', 'exp'])])
@@ -582,6 +585,33 @@ def execute(case, keep_text=False):
                     do_get(step, op[1])
                 elif k == 'probe':
                     do_probe(step, op[1], op[2], op[3])
+                elif k == 'probe_node':
+                    obj = do_get(step, op[1])
+                    if obj is None:
+                        continue
+                    s_ = ref['served'][op[1]]
+                    tb = s_['tab']
+                    it = min(int(op[2] * len(tb['T'])), len(tb['T']) - 1)
+                    ip = min(int(op[3] * len(tb['P'])), len(tb['P']) - 1)
+                    # the served object's own node values (unit conversion
+                    # may move a pressure by one ulp)
+                    got = np.asarray(obj.opacity(
+                        float(obj.temperatureGrid[it]),
+                        float(obj.pressureGrid[ip])), dtype=float)
+                    want = np.array(tb['x'])[ip, it] / 10000.0
+                    # a + (b - a)*1.0 loses b when |a| >> |b| (tables span up
+                    # to 40 decades): allow the round-off of the largest
+                    # neighbour at each wavenumber
+                    abs_ = 1e-13 * np.max(np.array(tb['x']), axis=(0, 1)) \
+                        / 10000.0 + (1e-59 if s_['fmt'] == 'exo' else 0.0)
+                    if got.shape != want.shape or np.any(
+                            np.abs(got - want) > 1e-9 * np.abs(want) + abs_):
+                        viol('probe-mismatch', 'node', '%s (%s): the value at '
+                             'the table node T=%r P=%r is not the tabulated one'
+                             % (op[1], s_['fmt'], tb['T'][it], tb['P'][ip]),
+                             step)
+                        raise Stop()
+                    out.bump('steps', 'node_probes')
                 elif k == 'add_mem':
                     mol = op[1]
                     ref['memcount'] += 1
